@@ -122,6 +122,18 @@ type dvOp struct {
 	Pick     int              `json:"pick,omitempty"`
 	Rollback bool             `json:"rollback,omitempty"`
 	Minors   map[string][]int `json:"minors,omitempty"`
+	// dryrun: a preemption / reservation-restore evaluation of the pending pod Pod on one node (Node, else the Pick-th
+	// node that has a ledger). The pods concerned are ledger pods of that node: first the ones listed in Names (as far
+	// as they hold something there), then picks from the rest (Vict, each an index into what is left, sorted by name).
+	// Back = how many of the removed pods are reprieved (AddPod) again. Resv: the first pod stands for the reserve pod of
+	// a Reservation, the others for pods that were allocated from it (RestoreReservation path; Unm = the reservation
+	// does not match the pending pod; Policy = its allocate policy).
+	Vict   []int    `json:"vict,omitempty"`
+	Names  []string `json:"names,omitempty"`
+	Back   int      `json:"back,omitempty"`
+	Resv   bool     `json:"resv,omitempty"`
+	Unm    bool     `json:"unm,omitempty"`
+	Policy string   `json:"policy,omitempty"`
 }
 
 // dims returns the per-device amounts the request asks for (resource name -> amount).
@@ -866,6 +878,52 @@ func (dvEngine) Generate(p *sim.Plan, g *sim.Rng) {
 			}
 		}
 	}
+	// Preemption / reservation-restore dry runs. Drawn after the workload and inserted into it, so that the rest of a
+	// seed's history does not depend on them.
+	insert := func(pos int, in ...dvOp) {
+		if pos > len(ops) {
+			pos = len(ops)
+		}
+		ops = append(ops[:pos:pos], append(in, ops[pos:]...)...)
+	}
+	for k := g.PickInt(0, 1, 1, 2, 2, 3, 4); k > 0; k-- {
+		op := dvOp{K: "dryrun", Pod: pickPod(), Pick: g.Intn(6), Back: g.Intn(4)}
+		for n := g.PickInt(1, 2, 3, 3, 4, 5, 8); n > 0; n-- {
+			op.Vict = append(op.Vict, g.Intn(8))
+		}
+		if g.Bool(0.3) {
+			op.Resv, op.Unm, op.Policy = true, g.Bool(0.25), g.Pick("", "", "Aligned", "Restricted")
+		}
+		insert(g.Range(len(ops)/3, len(ops)), op)
+	}
+	if g.Bool(0.3) {
+		// A Reservation placed by another scheduler instance and two pods that instance allocated from it: the
+		// reserve pod holds a whole GPU, each owner half of the same GPU (all three are entries of the node's ledger).
+		node := nodeName(g.Intn(cfg.Nodes))
+		var gpus []int
+		for _, d := range inv[node] {
+			if d.T == dvGPU {
+				gpus = append(gpus, d.M)
+			}
+		}
+		if len(gpus) > 0 {
+			m := gpus[g.Intn(len(gpus))]
+			pos := g.Range(len(ops)/3, len(ops))
+			share := g.PickI64(50, 50, 30, 25)
+			var in []dvOp
+			names := []string{fmt.Sprintf("r%d", nf), fmt.Sprintf("r%d", nf+1), fmt.Sprintf("r%d", nf+2)}
+			for i, name := range names {
+				q := dvReq{T: dvGPU, N: 1, Enc: "koord", Core: share, Ratio: share}
+				if i == 0 {
+					q.Core, q.Ratio = 100, 100
+				}
+				in = append(in, dvOp{K: "pod_foreign", Pod: name, Node: node, Reqs: []dvReq{q}, Minors: map[string][]int{dvGPU: {m}}})
+			}
+			insert(pos, in...)
+			dry := dvOp{K: "dryrun", Pod: pickPod(), Node: node, Names: names, Resv: !g.Bool(0.2), Back: g.Intn(3), Policy: g.Pick("", "Aligned", "Restricted")}
+			insert(g.Range(pos+3, len(ops)), dry)
+		}
+	}
 	if p.Prop == "C19" {
 		// drawn last, so that the workload of a seed does not depend on it
 		cfg.Order = g.Pick("devices-first", "any", "any")
@@ -909,6 +967,7 @@ type dvHandle struct {
 	snapshot  *dvSnapshot
 	koordFac  koordinatorinformers.SharedInformerFactory
 	nominator frameworkext.ReservationNominator
+	rcache    *dvResvCache // set only while a reservation-restore dry run is evaluated
 }
 
 func (h *dvHandle) SnapshotSharedLister() fwktype.SharedLister { return h.snapshot }
@@ -916,7 +975,28 @@ func (h *dvHandle) KoordinatorSharedInformerFactory() koordinatorinformers.Share
 	return h.koordFac
 }
 func (h *dvHandle) GetReservationNominator() frameworkext.ReservationNominator { return h.nominator }
-func (h *dvHandle) GetReservationCache() frameworkext.ReservationCache         { return nil }
+func (h *dvHandle) GetReservationCache() frameworkext.ReservationCache {
+	if h.rcache == nil {
+		return nil
+	}
+	return h.rcache
+}
+
+// dvResvCache stands for the reservation plugin's cache during a dry run: which reservation a pod was allocated from.
+type dvResvCache struct {
+	node  string
+	byPod map[string]*frameworkext.ReservationInfo
+}
+
+func (c *dvResvCache) DeleteReservation(r *schedulingv1alpha1.Reservation) *frameworkext.ReservationInfo {
+	return nil
+}
+func (c *dvResvCache) GetReservationInfoByPod(pod *corev1.Pod, nodeName string) *frameworkext.ReservationInfo {
+	if nodeName != c.node {
+		return nil
+	}
+	return c.byPod[pod.Name]
+}
 
 // ---------------------------------------------------------------- execution
 
@@ -1102,11 +1182,14 @@ func (s *dvSim) podNames() []string {
 }
 
 // modelUsed: in use = sum of the live pods' allocations on each device.
-func (s *dvSim) modelUsed(node string) dvAlloc {
+func (s *dvSim) modelUsed(node string) dvAlloc { return s.modelUsedWithout(node, nil) }
+
+// modelUsedWithout: the same sum, leaving out the named pods (what would be in use if they were gone).
+func (s *dvSim) modelUsedWithout(node string, gone map[string]bool) dvAlloc {
 	out := dvAlloc{}
 	for _, p := range s.podNames() {
 		h := s.expected(p, node)
-		if h == nil {
+		if h == nil || gone[p] {
 			continue
 		}
 		for t, ms := range h.alloc {
@@ -1146,8 +1229,11 @@ func (s *dvSim) markOver(node, cause string) {
 
 // feasible is the brute-force reference for "a set of N distinct permitted devices, each with
 // at least the requested amount free, exists" (for every requested device type).
-func (s *dvSim) feasible(node string, reqs []dvReq) bool {
-	used := s.modelUsed(node)
+func (s *dvSim) feasible(node string, reqs []dvReq) bool { return s.feasibleWithout(node, reqs, nil) }
+
+// feasibleWithout: the same question for the node as it would be without the named pods.
+func (s *dvSim) feasibleWithout(node string, reqs []dvReq, gone map[string]bool) bool {
+	used := s.modelUsedWithout(node, gone)
 	for i := range reqs {
 		q := &reqs[i]
 		dims := q.dims()
@@ -1266,7 +1352,7 @@ func (dvEngine) Execute(r *sim.Run) {
 			acts = append(acts, actReserve)
 		}
 		// one scheduling goroutine: the next cycle starts only when the open one has reserved
-		opOK := opi < len(ops) && !(s.cfg.Serial && len(acts) > 0) && !(s.open != nil && ops[opi].K == "schedule")
+		opOK := opi < len(ops) && !(s.cfg.Serial && len(acts) > 0) && !(s.open != nil && (ops[opi].K == "schedule" || ops[opi].K == "dryrun"))
 		if len(acts) == 0 && !opOK {
 			break
 		}
@@ -1310,6 +1396,10 @@ func (dvEngine) Execute(r *sim.Run) {
 func (s *dvSim) doOp(op *dvOp) {
 	if op.K == "schedule" {
 		s.cycle(op)
+		return
+	}
+	if op.K == "dryrun" {
+		s.dryRun(op)
 		return
 	}
 	if op.K == "pod_create" || op.K == "pod_foreign" {
@@ -1838,6 +1928,279 @@ func (s *dvSim) stepTask(i int) {
 	r.Probe("bound")
 	r.Event("bound %s -> %s", t.name, t.node)
 	r.Sample("bound %s -> %s", t.name, t.node)
+}
+
+// ---------------------------------------------------------------- preemption / reservation-restore dry runs
+//
+// A dry run is what the scheduler does when it evaluates, for a pending pod, "would the pod fit on this node if these
+// pods were gone" (preemption: PreFilterExtensions().RemovePod / AddPod on a copy of the cycle state produced by
+// PreFilter, Filter after every change) or "what of this reservation could the pod use" (PreRestoreReservation /
+// RestoreReservation before PreFilter, then Filter). Nothing is allocated and nothing is released, so, from the
+// statement of C07 (in use = sum of the live pods' allocations, free = total - in use): the ledgers of every node are,
+// by value, exactly what they were before, and every ledger invariant still holds (check() runs right after).
+// The verdict of Filter after removing a set of pods is the statement's "fails only if no such set exists" asked about
+// the node without those pods (brute force over the model, the removed pods' allocations left out of the sum).
+
+// ledgerByValue flattens the summaries of all node ledgers (an absent amount is a zero amount).
+func (s *dvSim) ledgerByValue() map[string]string {
+	out := map[string]string{}
+	for node, sum := range s.pl.nodeDeviceCache.getAllNodeDeviceSummary() {
+		out[node+" present"] = "yes"
+		for k, v := range dvFlatSummary(sum) {
+			out[node+" "+k] = fmt.Sprint(v)
+		}
+		for k, v := range dvFlatSet(sum) {
+			out[node+" allocate-set "+k] = v
+		}
+	}
+	return out
+}
+
+// ledgerUnchanged compares the ledgers with a snapshot taken before the dry run.
+func (s *dvSim) ledgerUnchanged(before map[string]string, kind, step string) {
+	s.oracleEval()
+	after := s.ledgerByValue()
+	for _, k := range dvSortedKeys(before, after) {
+		if before[k] != after[k] {
+			what := "amounts"
+			if f := strings.Fields(k); len(f) > 1 {
+				what = f[1]
+			}
+			s.fail("dry-run", "ledger-changed/"+kind+"/"+what, "a %s dry run changed the ledger (nothing was allocated or released): after %s, %q was %q and is now %q",
+				kind, step, k, before[k], after[k])
+			return
+		}
+	}
+}
+
+// ledgerPod is the pod object the scheduler's snapshot has for a pod that holds devices on a node.
+func (s *dvSim) ledgerPod(name, node string) *corev1.Pod {
+	h := s.expected(name, node)
+	if d := s.delivered[name]; d != nil && h != nil && string(d.UID) == h.uid {
+		if d.Spec.NodeName == node {
+			return d
+		}
+		// assumed by the scheduler: the snapshot has the pod with the node filled in
+		c := d.DeepCopy()
+		c.Spec.NodeName = node
+		return c
+	}
+	uid := ""
+	if h != nil {
+		uid = h.uid
+	}
+	return &corev1.Pod{ObjectMeta: metav1.ObjectMeta{Name: name, Namespace: dvNS, UID: types.UID(uid)}, Spec: corev1.PodSpec{NodeName: node}}
+}
+
+func (s *dvSim) dryRun(op *dvOp) {
+	r := s.r
+	eligible := func(name string) bool {
+		pod := s.delivered[name]
+		return pod != nil && pod.Spec.NodeName == "" && !dvTerminated(pod) && !s.inFlight[name] && !s.assumed[string(pod.UID)] &&
+			len(s.reqsByUID[string(pod.UID)]) > 0
+	}
+	name := op.Pod
+	if !eligible(name) {
+		// any other pod of the scheduling queue
+		var cands []string
+		for n := range s.delivered {
+			if eligible(n) {
+				cands = append(cands, n)
+			}
+		}
+		if len(cands) == 0 {
+			r.OpSkipped()
+			return
+		}
+		sort.Strings(cands)
+		name = cands[op.Pick%len(cands)]
+	}
+	pod := s.delivered[name]
+	reqs := s.reqsByUID[string(pod.UID)]
+	var nodes []string
+	for _, n := range s.nodes {
+		if s.known[n] {
+			nodes = append(nodes, n)
+		}
+	}
+	if len(nodes) == 0 {
+		r.OpSkipped()
+		return
+	}
+	node := nodes[op.Pick%len(nodes)]
+	if op.Node != "" && s.known[op.Node] {
+		node = op.Node
+	}
+	// the pods concerned: ledger pods of the node (what the scheduler's snapshot has there with devices)
+	var rest []string
+	for _, p := range s.podNames() {
+		if s.expected(p, node) != nil {
+			rest = append(rest, p)
+		}
+	}
+	var chosen []string
+	take := func(i int) {
+		chosen = append(chosen, rest[i])
+		rest = append(rest[:i:i], rest[i+1:]...)
+	}
+	for _, n := range op.Names {
+		for i := range rest {
+			if rest[i] == n {
+				take(i)
+				break
+			}
+		}
+	}
+	for _, v := range op.Vict {
+		if len(rest) == 0 {
+			break
+		}
+		take(v % len(rest))
+	}
+	if len(chosen) == 0 {
+		r.OpSkipped()
+		return
+	}
+	ctx := context.TODO()
+	ni := s.h.snapshot.infos[node]
+	before := s.ledgerByValue()
+	cs := framework.NewCycleState()
+	kind := "preemption"
+	var rInfo *frameworkext.ReservationInfo
+	var owners []string
+	if op.Resv {
+		// the reservation is restored before PreFilter (frameworkext runs the restore transformers first)
+		kind = "reservation-restore"
+		resv := &schedulingv1alpha1.Reservation{ObjectMeta: metav1.ObjectMeta{Name: "resv-" + chosen[0], UID: types.UID(chosen[0])},
+			Spec:   schedulingv1alpha1.ReservationSpec{Template: &corev1.PodTemplateSpec{}, AllocatePolicy: schedulingv1alpha1.ReservationAllocatePolicy(op.Policy)},
+			Status: schedulingv1alpha1.ReservationStatus{NodeName: node}}
+		rInfo = frameworkext.NewReservationInfo(resv) // its reserve pod is the ledger entry default/<chosen[0]>
+		owners = chosen[1:]
+		for _, o := range owners {
+			rInfo.AddAssignedPod(s.ledgerPod(o, node))
+		}
+		if st := s.pl.PreRestoreReservation(ctx, cs, pod); !st.IsSuccess() {
+			s.fail("dry-run", "pre-restore-fails", "PreRestoreReservation of %s (%+v) = %v", name, reqs, st.Message())
+		}
+		matched, unmatched := []*frameworkext.ReservationInfo{rInfo}, []*frameworkext.ReservationInfo(nil)
+		if op.Unm {
+			matched, unmatched = unmatched, matched
+		}
+		if _, st := s.pl.RestoreReservation(ctx, cs, pod, matched, unmatched, ni); !st.IsSuccess() {
+			s.fail("dry-run", "restore-fails", "RestoreReservation of %s on %s = %v", name, node, st.Message())
+		}
+		r.Probe("dryrun:restore-reservation")
+		if len(owners) >= 2 {
+			r.Probe("dryrun:restore-reservation-with-two-or-more-owners")
+		}
+		s.ledgerUnchanged(before, kind, "RestoreReservation("+strings.Join(chosen, ",")+")")
+	}
+	if _, st := s.pl.PreFilter(ctx, cs, pod, nil); !st.IsSuccess() {
+		s.fail("prefilter", "rejects-valid-request", "PreFilter of %s (%+v) = %v", name, reqs, st.Message())
+		r.OpSkipped()
+		return
+	}
+	r.OpDone()
+	r.Probe("dryrun:" + kind)
+	work := cs.Clone() // every node is evaluated on its own copy of the cycle state
+	gone := map[string]bool{}
+	var verdicts []string
+	state := work
+	filter := func(step string) bool {
+		st := s.pl.Filter(ctx, state, pod, ni)
+		verdicts = append(verdicts, fmt.Sprint(st.IsSuccess()))
+		if op.Resv {
+			return st.IsSuccess() // how much of a reservation the pod may use is not part of the statement: no verdict oracle
+		}
+		s.oracleEval()
+		want := s.feasibleWithout(node, reqs, gone)
+		if st.IsSuccess() && !want {
+			s.fail("dry-run", "filter-accepts-infeasible", "after %s, Filter accepts %s on %s but even without %v no set of devices satisfies %+v: inventory %s, in use without them %s",
+				step, name, node, dvSortedKeys(gone), reqs, dvAllocStr(s.inv[node]), dvAllocStr(s.modelUsedWithout(node, gone)))
+		}
+		if !st.IsSuccess() && want {
+			if s.scoped(node, reqs) {
+				r.Probe("topology-node:feasible-set-refused")
+			} else {
+				s.fail("dry-run", "filter-rejects-feasible", "after %s, Filter rejects %s on %s (%s) although without %v a feasible set exists for %+v: inventory %s, in use without them %s",
+					step, name, node, st.Message(), dvSortedKeys(gone), reqs, dvAllocStr(s.inv[node]), dvAllocStr(s.modelUsedWithout(node, gone)))
+			}
+		}
+		if st.IsSuccess() && len(gone) > 0 && !s.feasible(node, reqs) {
+			r.Probe("dryrun:fits-only-without-the-removed-pods")
+		}
+		return st.IsSuccess()
+	}
+	victims := chosen
+	if op.Resv {
+		victims = owners
+		// the reservation plugin's cache tells which reservation a pod was allocated from
+		s.h.rcache = &dvResvCache{node: node, byPod: map[string]*frameworkext.ReservationInfo{}}
+		for _, o := range owners {
+			s.h.rcache.byPod[o] = rInfo
+		}
+		filter("RestoreReservation")
+	}
+	ext := s.pl.PreFilterExtensions()
+	// do two of the pods share a device?
+	shared := false
+	seen := map[string]string{}
+	for _, v := range victims {
+		for t, ms := range s.expected(v, node).alloc {
+			for m := range ms {
+				k := fmt.Sprintf("%s/%d", t, m)
+				if o, ok := seen[k]; ok && o != v {
+					shared = true
+				}
+				seen[k] = v
+			}
+		}
+	}
+	if len(victims) >= 3 {
+		r.Probe("dryrun:three-or-more-pods-removed")
+	}
+	if shared {
+		r.Probe("dryrun:removed-pods-share-a-device")
+	}
+	for i, v := range victims {
+		pi, err := framework.NewPodInfo(s.ledgerPod(v, node))
+		if err != nil {
+			r.HarnessFail("NewPodInfo(%s): %v", v, err)
+		}
+		if st := ext.RemovePod(ctx, work, pod, pi, ni); !st.IsSuccess() {
+			s.fail("dry-run", "remove-pod-fails", "RemovePod(%s) on %s = %v", v, node, st.Message())
+		}
+		gone[v] = true
+		if i == len(victims)-1 || op.Back%2 == 1 {
+			filter("RemovePod(" + strings.Join(victims[:i+1], ",") + ")")
+		}
+	}
+	s.ledgerUnchanged(before, kind, "RemovePod("+strings.Join(victims, ",")+")")
+	// reprieve: the pods come back one by one (last removed first); one that makes the pending pod unfit is removed again
+	for i := len(victims) - 1; i >= 0 && len(victims)-i <= op.Back; i-- {
+		v := victims[i]
+		pi, _ := framework.NewPodInfo(s.ledgerPod(v, node))
+		if st := ext.AddPod(ctx, work, pod, pi, ni); !st.IsSuccess() {
+			s.fail("dry-run", "add-pod-fails", "AddPod(%s) on %s = %v", v, node, st.Message())
+		}
+		delete(gone, v)
+		r.Probe("dryrun:pod-reprieved")
+		if !filter("AddPod("+v+")") && op.Back >= 2 {
+			if st := ext.RemovePod(ctx, work, pod, pi, ni); !st.IsSuccess() {
+				s.fail("dry-run", "remove-pod-fails", "RemovePod(%s) on %s = %v", v, node, st.Message())
+			}
+			gone[v] = true
+			r.Probe("dryrun:reprieve-undone")
+			filter("RemovePod(" + v + ") again")
+		}
+	}
+	s.h.rcache = nil
+	s.ledgerUnchanged(before, kind, "RemovePod/AddPod of "+strings.Join(victims, ","))
+	// the cycle state the copy was taken from knows nothing of the removed pods: Filter there judges the node as it is
+	state, gone = cs, map[string]bool{}
+	filter("the dry run, on the cycle state it was copied from")
+	r.Event("dryrun %s %s on %s pods=%v verdicts=%v", kind, name, node, chosen, verdicts)
+	r.Sample("dryrun %s %s on %s pods=%v back=%d verdicts=%v", kind, name, node, chosen, op.Back, verdicts)
 }
 
 // ---------------------------------------------------------------- quiescent-point oracle
